@@ -720,6 +720,7 @@ where
         tx_state.status =
             if conflict { TransactionStatus::Conflict } else { TransactionStatus::Executed };
         self.scheduler_ctx.executed(txid);
+        vpoint!(EXECUTED_DONE);
 
         if let Some(next) = next {
             self.scheduler_ctx.rewind_validation_to(txid);
